@@ -333,6 +333,10 @@ impl<'a> Elab<'a> {
     fn all_drops(&mut self) -> Vec<Stmt> {
         let live: Vec<Raii> = self.env.raii.iter().rev().cloned().collect();
         let mut v = vec![];
+        if self.spec.before.contains_key("exit") {
+            self.used_keys.insert("before:exit".to_string());
+            v.push(parse_quote!(__vx_ghost!("before:exit");));
+        }
         for r in live.iter() {
             v.extend(self.drop_stmts(r));
         }
@@ -394,10 +398,15 @@ impl<'a> Elab<'a> {
                     let e2 = self.fold_temp_scope(e);
                     let scoped: Vec<Raii> =
                         self.env.raii.iter().filter(|r| r.depth >= depth).rev().cloned().collect();
-                    if diverges(&e2) || scoped.is_empty() {
+                    let exit_ghost = depth == 1 && self.spec.before.contains_key("exit");
+                    if diverges(&e2) || (scoped.is_empty() && !exit_ghost) {
                         out.push(Stmt::Expr(e2, None));
                     } else {
                         let mut drops = vec![];
+                        if exit_ghost {
+                            self.used_keys.insert("before:exit".to_string());
+                            drops.push(parse_quote!(__vx_ghost!("before:exit");));
+                        }
                         for r in scoped.iter() {
                             drops.extend(self.drop_stmts(r));
                         }
@@ -423,6 +432,10 @@ impl<'a> Elab<'a> {
             _ => false,
         };
         if !div {
+            if depth == 1 && self.spec.before.contains_key("exit") {
+                self.used_keys.insert("before:exit".to_string());
+                out.push(parse_quote!(__vx_ghost!("before:exit");));
+            }
             for r in scoped.iter() {
                 let d = self.drop_stmts(r);
                 out.extend(d);
@@ -868,6 +881,15 @@ impl<'a> Elab<'a> {
                 }
             }
         }
+        // `X.map_err(Into::into)`  →  match with the modelled conversion `vx_into` (spec function `into_spec`)
+        if method == "map_err" && m.args.len() == 1 {
+            if let Expr::Path(p) = &m.args[0] {
+                if path_to_string(&p.path) == "Into::into" {
+                    let recv = self.fold_expr((*m.receiver).clone());
+                    return parse_quote!(match #recv { Ok(__v) => Ok(__v), Err(__e) => Err(vx_into(__e)) });
+                }
+            }
+        }
         // dropcall (e.g. `.into()` wrapper conversion, A10)
         if m.args.is_empty() && self.u.dropcall.contains(&method) {
             return self.fold_expr(*m.receiver);
@@ -877,6 +899,26 @@ impl<'a> Elab<'a> {
             self.unsupported("Weak::upgrade outside `if let Some(x) = ..upgrade()`", sp);
         }
 
+        // R3: calls into the manager that the pool-level model must see (`X.manager.detach(..)` → `POOL.mgr_detach_(..)`)
+        {
+            let rl = match peel_paren(&m.receiver) {
+                Expr::Field(f) => last_field(&Expr::Field(f.clone())),
+                Expr::MethodCall(mm) if mm.args.is_empty() => Some(mm.method.to_string()),
+                _ => None,
+            };
+            if let Some(rl) = rl {
+                if let Some((_, _, to)) = self.u.poolcall.iter().find(|(r, mth, _)| *r == rl && *mth == method).cloned() {
+                    if let Some(pool) = self.pool.clone() {
+                        let args: Vec<Expr> = m.args.iter().cloned().map(|a| self.fold_expr(a)).collect();
+                        let to_id = ident(&to);
+                        let call: Expr = parse_quote!(#pool.#to_id(#(#args),*));
+                        return self.wrap_op(call, &format!("{}.{}", rl, method), false);
+                    } else {
+                        self.unsupported("manager call in a function without pool path", sp);
+                    }
+                }
+            }
+        }
         let recv_orig = (*m.receiver).clone();
         let recv_field = last_field(&recv_orig);
         let recv_local = path_single_ident(&recv_orig);
@@ -1289,7 +1331,7 @@ impl<'a> Elab<'a> {
     }
 
     fn loop_marker(&mut self) -> Stmt {
-        let n = self.loop_ctr as u32;
+        let n = proc_macro2::Literal::u32_unsuffixed(self.loop_ctr as u32);
         self.loop_ctr += 1;
         parse_quote!(__vx_loop!(#n);)
     }
@@ -1505,6 +1547,14 @@ impl<'a> Elab<'a> {
                 }
                 if let Some((base, chain)) = split(e) {
                     let b2 = self.fold_expr(base);
+                    if chain.len() == 1 && chain[0].method == "map_err" && chain[0].args.len() == 1 {
+                        if let Expr::Closure(cl) = &chain[0].args[0] {
+                            if cl.inputs.len() == 1 && matches!(cl.inputs[0], Pat::Wild(_)) && matches!(&*cl.body, Expr::Path(_)) {
+                                let c = self.fold_expr((*cl.body).clone());
+                                return parse_quote!(#b2.map_err_(#c));
+                            }
+                        }
+                    }
                     let mut body: Expr = parse_quote!(__v);
                     for mut m in chain.into_iter() {
                         m.receiver = Box::new(body);
@@ -1569,6 +1619,14 @@ impl<'a> Fold for Elab<'a> {
                 Expr::Block(ExprBlock { attrs: vec![], label: None, block: b2 })
             }
             Expr::Binary(b) if is_compound_assign(&b.op) => self.do_opassign(b),
+            Expr::Assign(a) if last_field(&a.left).is_some() => {
+                let f = last_field(&a.left).unwrap();
+                let left = self.fold_expr(*a.left);
+                let right = self.fold_expr(*a.right);
+                self.value_consumes(&right);
+                let e = Expr::Assign(ExprAssign { attrs: vec![], left: Box::new(left), eq_token: a.eq_token, right: Box::new(right) });
+                self.wrap_op(e, &format!("{}=", f), false)
+            }
             Expr::Unsafe(u) => {
                 self.unsupported("unsafe block", u.span());
                 Expr::Unsafe(u)
@@ -1586,7 +1644,7 @@ impl<'a> Fold for Elab<'a> {
 
     fn fold_type(&mut self, t: Type) -> Type {
         let mut t = t;
-        let mut rw = crate::ty::TyRw { u: self.u };
+        let mut rw = crate::ty::TyRw { u: self.u, in_unit_ty: false };
         syn::visit_mut::VisitMut::visit_type_mut(&mut rw, &mut t);
         t
     }
@@ -1595,7 +1653,7 @@ impl<'a> Fold for Elab<'a> {
         // expression / pattern paths: drop generic args naming dropped generics, rename
         let mut p = p;
         for seg in p.segments.iter_mut() {
-            let mut rw = crate::ty::TyRw { u: self.u };
+            let mut rw = crate::ty::TyRw { u: self.u, in_unit_ty: false };
             syn::visit_mut::VisitMut::visit_path_arguments_mut(&mut rw, &mut seg.arguments);
         }
         // erased wrapper prefix e.g. `Arc::downgrade` is handled by field dropping
